@@ -28,6 +28,9 @@ pub struct MenuOpt {
     pub stake_native: bool,
     /// additionally: u1 stakes with LST minted to u3
     pub stake_other: bool,
+    /// additionally: u1 stakes with the LST sent over IBC to the staker's own native address, so
+    /// that packets of both denoms share one receiver
+    pub stake_to_staker: bool,
     pub max_stakes: u32,
     pub unstakers: Vec<String>,
     pub unstake: Vec<Frac>,
@@ -63,6 +66,7 @@ impl MenuOpt {
             stake_amts: vec![100, 37],
             stake_native: false,
             stake_other: false,
+            stake_to_staker: false,
             max_stakes: 3,
             unstakers: vec![u(1), u(2)],
             unstake: vec![Frac::All, Frac::Third],
@@ -141,6 +145,12 @@ pub fn std_menu(s: &Sim, o: &MenuOpt) -> Vec<Act> {
         }
         if o.stake_other {
             a.push(stake_to(&u(1), o.stake_amts[0], Some(u(3)), None, None));
+        }
+        if o.stake_to_staker && s.w.bal(&u(1), &sdn) >= o.stake_amts[0] {
+            let st = stake_to(&u(1), o.stake_amts[0], Some(n20(k, "staker")), Some(true), None);
+            if can_hold {
+                a.push(hold(st));
+            }
         }
     }
     // unstakes
